@@ -241,7 +241,7 @@ def bounded(tier, seed):
     return [{"name": "C02.bounded", "script": "native/bounded_C02.py", "timeout": 3000,
              "scope": "every scan part of the property's space with bounds 0..N+2 and <=3 '+' items (parse half: all of them on the real PLY Scanner); "
                       "run half: files of N<=4 (thorough 7) records, every single blank position (thorough: every subset of <=3), "
-                      "a 1-in-12 sample of the scan parts in quick, all in thorough"}]
+                      "a 1-in-12 sample of the scan parts in quick; thorough: all of them for files of <=4 records, a 1-in-6 slice for longer files"}]
 
 
 def lemmas():
